@@ -104,14 +104,17 @@ func (self ValueString) iterNext() (Value, bool) {
 		self.iterReset()
 	}
 
+	// iterate over the characters (not the bytes) of the string
+	chars := []rune(self.Inner)
+
 	old := *self.currIterIdx
 	*self.currIterIdx++
 
-	shouldContinue := *self.currIterIdx <= len(self.Inner)
+	shouldContinue := *self.currIterIdx <= len(chars)
 
 	if shouldContinue {
 		return *NewValueString(
-			fmt.Sprint(self.Inner[old]),
+			string(chars[old]),
 		), true
 	} else {
 		self.iterReset()
